@@ -334,7 +334,7 @@ class WorkerRun:
 
             async def process(self, actor, key, payload, parameters):
                 # remember which message this task (and the tasks it spawns) is working on: result stores are attributed by it
-                _cur_msg.set(key.id_)
+                _cur_msg.set((key.id_, me.deliver_count.get(key.id_, 1) - 1))     # (id, number of this delivery)
                 return await super().process(actor, key, payload, parameters)
         rw._Runner = SpyRunner
         loop = asyncio.get_running_loop()
@@ -441,6 +441,7 @@ def deliveries(run: WorkerRun) -> list[dict]:
     out: list[dict] = []
     cur: dict[str, dict] = {}
     by_exec: dict[tuple, dict] = {}
+    by_deliv: dict[tuple, dict] = {}
     for e in run.events:
         k = e["kind"]
         if k == "deliver":
@@ -449,6 +450,7 @@ def deliveries(run: WorkerRun) -> list[dict]:
                  "calls": [], "stores": [], "body": False, "callbacks": [], "ran": [], "after_eager": False, "call_t": None,
                  "start_t": None, "end_t": None}
             cur[e["id"]] = d
+            by_deliv[(e["id"], e["n"])] = d
             out.append(d)
         elif k == "bcall" and e["id"] in cur and e["op"] != "enqueue":
             d = cur[e["id"]]
@@ -472,8 +474,14 @@ def deliveries(run: WorkerRun) -> list[dict]:
             # attribute the store to the job that owns this result id (latest delivery wins when shared)
             owners = [j["id"] for j in run.sc["jobs"] if j.get("result_id", "res-" + j["id"]) == e["id"] and j["id"] in cur]
             mid = max(owners, key=lambda i: cur[i]["t"]) if owners else None
-            if e.get("owner") in cur:
-                mid = e["owner"]          # the message the storing task was processing
+            own = e.get("owner")
+            if own is not None and tuple(own) in by_deliv:
+                # the delivery the storing task was processing (the same id may already have been delivered again)
+                d = by_deliv[tuple(own)]
+                d["stores"].append(bool(e["success"]))
+                d["ran"].append([A("store"), bool(e["success"])])
+                d.setdefault("store_events", []).append(e)
+                continue
             if mid in cur:
                 cur[mid]["stores"].append(bool(e["success"]))
                 cur[mid]["ran"].append([A("store"), bool(e["success"])])
